@@ -42,8 +42,10 @@ DqnLoss8B(c) == Sum([i \in 1..Len(c.rows) |-> Sq(2 * c.Qon[c.rows[i].o][c.rows[i
 DqnGrad2B(c, o, a) == Sum([i \in 1..Len(c.rows) |->
                              IF c.rows[i].o = o /\ c.rows[i].a = a THEN 2 * c.Qon[o][a] - DqnTarget2(c, c.rows[i]) ELSE 0])
 
-\* SAC: constants in quarters (q1, q2 online critics; q1t, q2t target critics; lp = log pi of the fresh next action); alpha = 1
-SacTarget8(c, row) == 8 * row.r + (IF Terminated(row) THEN 0 ELSE c.g2 * (Min2(c.q1t, c.q2t) - c.lp))
+\* SAC: constants in quarters (q1, q2 online critics; q1t, q2t target critics; lp = log pi of the fresh next action);
+\* temperature alpha = c.a (an integer; 1 where a case does not say)
+Alpha(c) == IF "a" \in DOMAIN c THEN c.a ELSE 1
+SacTarget8(c, row) == 8 * row.r + (IF Terminated(row) THEN 0 ELSE c.g2 * (Min2(c.q1t, c.q2t) - Alpha(c) * c.lp))
 SacQLoss128B(c) == Sum([i \in 1..Len(c.rows) |-> Sq(2 * c.q1 - SacTarget8(c, c.rows[i])) + Sq(2 * c.q2 - SacTarget8(c, c.rows[i]))])
 
 (* ------------------------------------ policy-gradient objectives ------------------------------------ *)
